@@ -62,7 +62,7 @@ def cat_configs(tier):
   out = []
   for nb in (2, 3, 4):
     for g in dags(nb):
-      for lo, hi in ((None, None), (-0.5, None), (None, 0.75), (-0.5, 0.75)):
+      for lo, hi in ((None, None), (-0.5, None), (None, 0.75), (-0.5, 0.75), (0.0, None), (None, 0.0)):
         if tier == "quick" and nb == 4 and (lo is None) != (hi is None):
           continue
         out.append(dict(kind="cat", nb=nb, pairs=[list(p) for p in g], lo=lo, hi=hi))
